@@ -18,6 +18,7 @@ Decides the "leave everything unchanged" clause structurally:
     process-id domain the caller establishes (`process::id() % M`): it is never 0 (0 means "no identifier" and passes every tracer's check_trace_id),
     distinct for distinct i, and no overflow assertion on the way can fail. Bounds: every pid of the domain × i < 16; the four boundary pids × i < 4096.
 C07.R5 (imported): advance_round restarts the numbering only at max_sequence(), whose two regimes leave a whole buffer of numbers per round.
+C07.R3 (imported): which slot every issue / re-issue writes — an abandoned TCP sequence ends up Skipped, never Awaited.
 Not decided: arrival-order semantics over many rounds (the two-round separation itself is C07.R7, with its known findings);
 multi-tracer interference beyond the trace-id / validate gates.
 """
